@@ -21,7 +21,7 @@ PROPS = {
         "workloads": [vrun("c01", 4000, 80000), vrun("general", 1500, 30000)],
         "rule": "each real run's raw event stream is replayed into every stats pipeline (Summarize<Normalize<Basic>>, the same under FailOnSkipped, under Repeat::failed / Repeat::skipped, Normalize<Libtest> incl. its suite line, Tee, Or with constant predicate); non-trivial = the run contains a failed/skipped step, a failed hook or a parser error; distinct by the run's per-attempt outcome shape [step failed, hook failed, skipped, retries left] (every run is judged by all 12 pipeline verdicts; see observed.c01.pipeline_verdicts)",
         "floor": {"quick": 200, "thorough": 1000},
-        "assumptions": VRUN_ASSUME + ["the verdict oracle is written from the statement over the raw stream; the legacy rule (any Hook::Failed) is computed only to classify a mismatch as the recorded finding"],
+        "assumptions": VRUN_ASSUME + ["the verdict oracle is written from the statement over the raw stream; the former rule (any Hook::Failed fails the run) is still computed to label a mismatch of exactly that shape (`verdict:hook-failed-in-nonfinal-attempt`, repaired by 3269717)"],
     },
     "C02": {
         "workloads": [vrun("c02", 4000, 80000), vrun("general", 1500, 30000)],
@@ -103,7 +103,7 @@ PROPS.update({
     "C12": {
         "engine_name": "vstream",
         "workloads": [vstream("c12", 8000, 150000)],
-        "rule": "normalized contract-abiding streams fed to Summarize<recording writer>, with and without Repeat::failed outside; counters compared with an independent fold written from the statement; non-trivial = a scenario with a retry, a hook failure or a skip; distinct by per-scenario attempt-outcome word (step failed, hook failed, skipped per attempt). Streams containing the shapes of the recorded findings are evaluated again with those scenarios removed",
+        "rule": "normalized contract-abiding streams fed to Summarize<recording writer>, with and without Repeat::failed outside; counters compared with an independent fold written from the statement; non-trivial = a scenario with a retry, a hook failure or a skip; distinct by per-scenario attempt-outcome word (step failed, hook failed, skipped per attempt). Streams containing the shapes of the two repaired findings would be evaluated again with those scenarios removed, so that a regression of them cannot mask another miscount",
         "floor": {"quick": 30, "thorough": 60},
         "assumptions": VSTREAM_ASSUME + ["a not-found failure (skipped step turned into a failure by fail_on_skipped) is terminal: the runner never retries it"],
     },
